@@ -48,6 +48,11 @@ func argKind(a Act) string {
 		return "/payload-" + a.Shape
 	}
 	switch a.Name {
+	case "nd/g1":
+		if a.Cls == "jailed" {
+			return "/name-in-missing-dir-jailed"
+		}
+		return "/name-in-missing-dir"
 	case "/dev/null":
 		if a.Op != "print" && a.Op != "close" && a.Op != "fflush" {
 			return "/name-dev-null"
@@ -222,6 +227,10 @@ func failClass(c *Case, o *Obs) string {
 		return a.Op == "print" && (a.Dest == "stdout" || (a.Dest == "file" && (a.Name == "-" || a.Name == "/dev/stdout")))
 	}
 	if o.FailMark < len(ma) && toStdout(ma[o.FailMark]) {
+		if ma[o.FailMark].Form == "implied" {
+			// the print implied by a rule with a pattern and no action
+			return c.Cfg.WKind + "-write-failed-in-implied-print" + mc
+		}
 		return c.Cfg.WKind + "-write-failed-in-print" + mc
 	}
 	return "buffered"
@@ -283,6 +292,19 @@ func Compare(c *Case, o *Obs, variant string) *diff {
 		}
 		return &diff{P + "/" + opName(culprit) + "/" + what + "/" + fc + argKind(culprit), "process starts differ", p.Starts, o.Starts}
 	}
+	// file-system entries that came into being although the model creates no such entry: anything but the files
+	// f1 f2 f3 (whose existence is compared below, after the calls of the open-file function)
+	if bad := strangeEntries(p, o); len(bad) > 0 {
+		culprit := lastIO(c)
+		for _, a := range c.Acts {
+			if isWriteAct(a) && argKind(a) != "" {
+				culprit = a
+			}
+		}
+		return &diff{P + "/" + opName(culprit) + "/created-behind-openfile/" + fc + argKind(culprit),
+			"file-system entries came into being that no call of the open-file function created (work directory; cwd: = the process's working directory)",
+			predCreated(p), o.Created}
+	}
 	// open-file calls
 	if c.Cfg.Custom {
 		po, oo := p.Opens, o.Opens
@@ -327,13 +349,20 @@ func Compare(c *Case, o *Obs, variant string) *diff {
 		pf, of := p.Files[n], o.Files[n]
 		if pf.Ex != of.Ex || !bytes.Equal(pf.C.Bytes(), of.C.Bytes()) {
 			a := actFor(c, n, isWriteAct)
+			if c.Block > 0 {
+				// the block payload written to this file names the argument class
+				a = actFor(c, n, func(x Act) bool { return isWriteAct(x) && x.Shape == "block" })
+			}
 			what := "file-content"
 			if pf.Ex != of.Ex {
 				what = "file-existence"
 			}
-			return &diff{P + "/" + opName(a) + "/" + what + "/" + fc + argKind(a), "file " + n + " differs",
-				map[string]any{"exists": pf.Ex, "content": pf.C.String()}, map[string]any{"exists": of.Ex, "content": of.C.String()}}
+			return &diff{P + "/" + opName(a) + "/" + what + "/" + fc + argKind(a), "file " + n + " differs" + blockNote(c),
+				map[string]any{"exists": pf.Ex, "content": rle(pf.C.Bytes())}, map[string]any{"exists": of.Ex, "content": rle(of.C.Bytes())}}
 		}
+	}
+	if p.Created != nil && !reflect.DeepEqual(predCreated(p), append([]string{}, o.Created...)) {
+		return &diff{P + "/" + opName(lastIO(c)) + "/created-entries/" + fc, "the set of file-system entries the run created differs", predCreated(p), o.Created}
 	}
 	// error outcome
 	if p.ErrJudged && p.Err != gotErr {
@@ -379,14 +408,67 @@ func Compare(c *Case, o *Obs, variant string) *diff {
 					cls = "with-system-child-showing-file"
 				}
 			}
+			if c.Block > 0 {
+				return &diff{P + "/stdout/content/" + cls + "/" + variant + "/" + ending(c) + shapeKind(c), "standard output is not an allowed interleaving" + blockNote(c),
+					map[string]any{"program": rle(p.Stdout.Prog.Bytes())}, rle(o.Stdout)}
+			}
 			return &diff{P + "/stdout/content/" + cls + "/" + variant + "/" + ending(c) + shapeKind(c), "standard output is not an allowed interleaving",
 				map[string]any{"program": p.Stdout.Prog.String(), "children": p.Stdout.Kids}, string(o.Stdout)}
 		}
 	}
 	if p.SerrJudged && !bytes.Equal(o.Stderr, p.Serr.Bytes()) {
-		return &diff{P + "/print-to-stderr/content/" + fc + shapeKind(c), "error output differs", p.Serr.String(), string(o.Stderr)}
+		return &diff{P + "/print-to-stderr/content/" + fc + shapeKind(c), "error output differs" + blockNote(c), rle(p.Serr.Bytes()), rle(o.Stderr)}
 	}
 	return nil
+}
+
+func predCreated(p *Pred) []string {
+	out := []string{}
+	if p.Created != nil {
+		out = append(out, *p.Created...)
+	}
+	sort.Strings(out)
+	return out
+}
+
+// strangeEntries: created entries that are neither predicted nor one of the model's files.
+func strangeEntries(p *Pred, o *Obs) []string {
+	var bad []string
+	for _, n := range o.Created {
+		if n == "f1" || n == "f2" || n == "f3" {
+			continue
+		}
+		bad = append(bad, n)
+	}
+	return bad
+}
+
+func blockNote(c *Case) string {
+	if c.Block > 0 {
+		return fmt.Sprintf(" (a block payload is one string of %d bytes)", c.Block)
+	}
+	return ""
+}
+
+// rle abbreviates long runs of one byte (contents with block payloads) for reports: x{65536}.
+func rle(b []byte) string {
+	if len(b) < 200 {
+		return string(b)
+	}
+	var sb strings.Builder
+	for i := 0; i < len(b); {
+		j := i
+		for j < len(b) && b[j] == b[i] {
+			j++
+		}
+		if j-i >= 8 {
+			fmt.Fprintf(&sb, "%c{%d}", b[i], j-i)
+		} else {
+			sb.Write(b[i:j])
+		}
+		i = j
+	}
+	return sb.String()
 }
 
 // shapeKind: the first payload shape other than "plain" among the print actions of the history.
@@ -609,6 +691,16 @@ func replaySession(raw json.RawMessage) hx.Outcome {
 	return hx.OK(lastIO(lc).Op != "none")
 }
 
+// BlockSizes are the sizes a block payload is instantiated with: the default bufio size, the 64 KiB of the
+// interpreter's stream buffers minus one / exactly / plus one, and more than two buffers.  Runs that start a
+// process take two of them.
+func BlockSizes(procs bool) []int {
+	if procs {
+		return []int{65536, 65537}
+	}
+	return []int{4096, 65535, 65536, 65537, 131073}
+}
+
 // Replay is the hx.Replayer for Gen_IOStreams exports.
 func Replay(raw json.RawMessage) hx.Outcome {
 	var head struct {
@@ -626,11 +718,23 @@ func Replay(raw json.RawMessage) hx.Outcome {
 		return hx.Outcome{Skipped: true, Note: "bad case"}
 	}
 	variants := []RunOpts{{Marks: true}}
+	if HasBlock(c.Acts) {
+		// a block payload: the run is made once for each size (around the sizes of the stream buffers)
+		variants = nil
+		for _, n := range BlockSizes(len(c.Pred.Starts) > 0) {
+			variants = append(variants, RunOpts{Marks: true, Block: n})
+		}
+	}
 	if c.Fam != "failure" && c.Cfg.FailAt < 0 && len(c.Pred.Starts) == 0 && len(c.Pred.Stdout.Prog) > 0 {
 		// no child process, something written to standard output: the run is also made with a buffered standard output
-		variants = append(variants, RunOpts{Marks: true, WKind: "bufio4096"})
+		variants = append(variants, RunOpts{Marks: true, WKind: "bufio4096", Block: variants[len(variants)/2].Block})
 	}
+	model := c
 	for _, v := range variants {
+		c := model
+		if v.Block > 0 {
+			c = *Expand(&model, v.Block)
+		}
 		obs, prog := Run(&c, v)
 		if obs == nil {
 			return hx.Outcome{Skipped: true, Note: "not renderable: " + prog}
@@ -642,6 +746,9 @@ func Replay(raw json.RawMessage) hx.Outcome {
 			vn = c.Cfg.WKind + "-writer" + modeClass(c.Cfg)
 		}
 		vn += nlClass(c.Cfg)
+		if v.Block > 0 {
+			prog = fmt.Sprintf("# blk(s): %d copies of s\n", v.Block) + prog
+		}
 		if obs.Unsynced {
 			return hx.Outcome{Skipped: true, Note: "command did not report in time"}
 		}
